@@ -384,3 +384,56 @@ func MustPassToSuccess(p *Prog, fn *ssa.Function, via []ssa.Instruction) (bool, 
 	}
 	return true, ""
 }
+
+// EdgeTaken reports whether the CFG edge from->to was traversed.
+func (r *Result) EdgeTaken(from, to *ssa.BasicBlock) bool {
+	return r.seen[pstate{from.Index, to.Index}]
+}
+
+// RunAllFail runs one query per failure-mode combination of the guards in
+// fn and calls visit for each result.
+func RunAllFail(fn *ssa.Function, guards []*Guard, extra map[ssa.Value]Abs, nonEmptyRange bool, visit func(r *Result)) (guardSites int) {
+	insts := findGuards(fn, guards)
+	for _, as := range assumptions(insts) {
+		for k, v := range extra {
+			as[k] = v
+		}
+		q := &Query{Fn: fn, Assume: as, NonEmptyRange: nonEmptyRange}
+		visit(q.Run())
+	}
+	return len(insts)
+}
+
+// BackEdges lists the back edges (from, to) of fn.
+func BackEdges(fn *ssa.Function) [][2]*ssa.BasicBlock {
+	var out [][2]*ssa.BasicBlock
+	for _, b := range fn.Blocks {
+		for _, p := range b.Preds {
+			if b.Dominates(p) {
+				out = append(out, [2]*ssa.BasicBlock{p, b})
+			}
+		}
+	}
+	return out
+}
+
+// LoopBlocks returns the natural loop of back edge p->h.
+func LoopBlocks(p, h *ssa.BasicBlock) map[*ssa.BasicBlock]bool {
+	body := map[*ssa.BasicBlock]bool{h: true}
+	var stack []*ssa.BasicBlock
+	if !body[p] {
+		body[p] = true
+		stack = append(stack, p)
+	}
+	for len(stack) > 0 {
+		x := stack[len(stack)-1]
+		stack = stack[:len(stack)-1]
+		for _, q := range x.Preds {
+			if !body[q] {
+				body[q] = true
+				stack = append(stack, q)
+			}
+		}
+	}
+	return body
+}
